@@ -410,8 +410,22 @@ func c17Oracle(info *runInfo, res *verifsim.Result) {
 		judged++
 		if path == "/metrics" {
 			got := map[string]float64{}
+			advertising := map[string]bool{}
+			for _, is := range cfg.Interfaces {
+				for _, ifn := range is.names() {
+					advertising[ifn] = is.Advertise
+				}
+			}
 			for _, s := range parseProm(string(r.exit.B)) {
 				got[s.key()] = s.value
+				// RA-derived samples may only exist for advertising interfaces
+				if strings.HasPrefix(s.name, "corerad_advertiser_") {
+					for _, fam := range []string{"prefix_", "route_lifetime", "rdnss_lifetime", "dnssl_lifetime", "misconfiguration"} {
+						if strings.HasPrefix(s.name, "corerad_advertiser_"+fam) && !advertising[s.labels["interface"]] {
+							res.Violate("C17.mirror", "sample-for-non-advertiser", "scrape at %s: %s reported for %q, which does not advertise", ms(r.act.T), s.key(), s.labels["interface"])
+						}
+					}
+				}
 			}
 			for _, is := range cfg.Interfaces {
 				for _, ifn := range is.names() {
